@@ -199,6 +199,6 @@ pub fn run(r: &mut Runner) {
         let groups = crate::hist::unary_groups(&[Op::floor, Op::round, Op::fract], &bases, [3.25, 0.0]);
         crate::hist::explore(r, "histories: floor/ceil/trunc/round/fract", &groups, 3, &hist_judge, 14u64 << 55);
         // cross-family histories: the same judged calls, preceded by every other public function on the same operands
-        crate::hist::explore_mixed(r, "cross-family histories: any public call, then floor/ceil/trunc/round/fract", &groups[..groups.len().min(2)], 2, &hist_judge, (14u64 << 55) + (1u64 << 53));
+        crate::hist::explore_mixed(r, "cross-family histories: any public call, then floor/ceil/trunc/round/fract", &groups, 2, &hist_judge, (14u64 << 55) + (1u64 << 53));
     }
 }
